@@ -471,7 +471,8 @@ def oracle(case):
             # quick tier: the compiled variant is asked again only when that costs no extra compilation (maxiter == 1);
             # compiled = eager is checked on the full run below in any case
             for variant in (("eager", "static") if (not _QUICK[0] or case.get("maxiter") == 1) else ("eager",)):
-                o = _run_real(case, variant, kw1, pinned)
+                same = case.get("maxiter") == 1 and case.get("miniter") is None
+                o = _run_real(case, variant, None if same else kw1, pinned)
                 if "error" in o:
                     return (f"{variant} Newton-CG fails ({o['error']}) at a negative-curvature start",
                             _sig("negcurv_no_progress", variant=variant, how="error", cg="fake" if fake else "library"))
